@@ -271,6 +271,11 @@ def c12(run, ck):
     # cycles of length 1 and 2 through all 16 referencing constructs, also under ||, coalesce and has: they end in an error
     eval_stage(run, ck, "cycles", 0, 0, parts=8)
     vm_stage(run, ck, "refs", 120, 1500)
+    # rebinding a name (directly or from JSON) and re-adding a program replace the old one: API histories against Api.tla
+    out = os.path.join(run.work, "api.ndjson")
+    run.drive("api", 1500 if run.thorough else 120, out)
+    verdicts, recs = run.validate(out, "Trace_Api", cfg="Trace_Api.cfg", parts=8, label="api histories")
+    simple_violations(run, ck, verdicts, recs, "api", describe=lambda rec, v: "")
     return dict(rule="every reference graph on <= 3 programs (each node: one successor or a leaf) with every referencing construct on the edges, sampled out-degree-2 graphs on <= 4 programs, "
                      "chains of length 1..64 through each construct, every case in a child process (main thread and a 2 MB thread); name-collision configurations of one name as type/variable/program/function/macro/map field",
                 assumptions=["the default stack sizes of this machine (8 MB main thread, 2 MB spawned thread)"])
@@ -477,6 +482,22 @@ def c20(run, ck):
             n = _unparen(n)
             return isinstance(n, dict) and n.get("k") == "call" and n.get("f") in casts and len(n.get("args", [])) <= 1
         if _any_node(w, lambda n: (n.get("k") == "mcall" and cast_call(n.get("r"))) or (n.get("k") in ("sel", "idx") and cast_call(n.get("e")))):
+            # the recorded finding emits the constructor as a function call but keeps the chain; a translation that lost
+            # a member of the chain is something else
+            sql = (rec.get("out") or {}).get("text", "")
+            names = []
+            def collect(n):
+                if isinstance(n, dict):
+                    if n.get("k") in ("sel", "mcall") and isinstance(n.get("f"), str):
+                        names.append(n["f"])
+                    for x in n.values():
+                        collect(x)
+                elif isinstance(n, list):
+                    for x in n:
+                        collect(x)
+            collect(w)
+            if any(nm not in sql for nm in names):
+                return "cast-as-receiver|member-lost"
             return "cast-as-receiver"
         feats = []
         text = json.dumps(w)
